@@ -224,6 +224,26 @@ def check(g, case):
                 if diffs:
                     bad("reimport_differs", diffs[0]["expected"], diffs[0]["observed"], exporter="metapype_io",
                         field=diffs[0]["field"], clean=clean)
+    # ---------------- a subtree is a tree: export of an inner node / of the copy of an inner node ----------------
+    if g["children"] and len(case.get("slots", [])) <= 1:
+        for how in ("inner-node", "copy-of-inner-node"):
+            core.reset_store()
+            t = gtree.build(g)
+            sub = t.children[-1]
+            if how == "copy-of-inner-node":
+                sub = sub.copy()
+            sub.tail = None                       # precondition: no tail on the root of what is exported
+            try:
+                xml = metapype_io.to_xml(sub)
+                el = xmlinfo.parse(xml)
+                etree.fromstring(xml.encode("utf-8"))
+            except Exception as e:  # noqa
+                bad("not_well_formed", "well-formed XML for a subtree", repr(e)[:300], exporter="metapype_io", parser="both", subtree=how)
+                continue
+            diffs = []
+            compare_infoset(sub, el, (), diffs)
+            if diffs:
+                bad("export_differs", diffs[0]["expected"], diffs[0]["observed"], exporter="metapype_io", field=diffs[0]["field"], subtree=how)
     # ---------------- EML exporter ----------------
     ge = eml_variant(g)
     if eml_ok(ge):
